@@ -45,9 +45,19 @@ def obj (k : Kind) (s1 s2 : Str) : String :=
 
 /-- `classify <s>`: `macaddress.parse(s, MAC, EUI64)` as used by `MACEUISearch` -/
 def classifyAns (s : Str) : String :=
-  match classify s with
-  | .ok (k, v) => String.ofList k.cls.name ++ " " ++ toString v
+  (match classify s with
+   | .ok (k, v) => String.ofList k.cls.name ++ " " ++ toString v
+   | .error e => errName e) ++ "|" ++ encStr (searchStr s) ++ "|" ++ encStr (searchStr s)
+
+/-- `show <kind> <s>`: `ok|str(obj)|repr(obj)` -/
+def showAns (k : Kind) (s : Str) : String :=
+  match parseObj k s with
   | .error e => errName e
+  | .ok v => "ok|" ++ encStr (reprObj k v) ++ "|" ++ encStr (reprObj k v)
+
+/-- `search <word> <regexes>`: `MACEUISearch(word).search_all_formats(set(regexes))` -/
+def searchAns (w : Str) (rgxs : List Str) : String :=
+  if rgxs.all (fun r => r.all rxCharOk) then tf (searchAllFormats rgxs w) else "out-of-fragment"
 
 /-- `w` = `MACObj` / `EUI64Obj`, `p` = plain `macaddress.EUI48` / `EUI64` -/
 def mkObj (k : Kind) (form : String) (s : Str) : Option (Except Err Obj) :=
@@ -73,6 +83,14 @@ def handle : List String → String
     match decStr a with
     | some a => classifyAns a
     | none => "bad-request"
+  | ["show", k, a] =>
+    match kindOf k, decStr a with
+    | some k, some a => showAns k a
+    | _, _ => "bad-request"
+  | ["search", a, rs] =>
+    match decStr a, decStrs rs with
+    | some a, some rs => searchAns a rs
+    | _, _ => "bad-request"
   | ["xeq", k1, f1, a, k2, f2, b] =>
     match kindOf k1, kindOf k2, decStr a, decStr b with
     | some k1, some k2, some a, some b => xeq (mkObj k1 f1 a) (mkObj k2 f2 b)
